@@ -1,5 +1,7 @@
 """C10 — SBML export is valid and import(export(model)) is the same model."""
 from contracts import c10_c11_io as C
+from contracts import c10_sbml_logic as S
+from contracts import c10_ann_order as O
 from props._generic import run_property, replay_with_driver
 
 LEVEL = "other"
@@ -7,16 +9,38 @@ KEYS = ["_create_bound"]
 
 
 def run(rep):
-    run_property(rep, KEYS, hooks=C.HOOKS, explanation=(
-        "Deductive part is thin and stated as such: only sbml._create_bound is within reach - it is proved, for every bound value and "
+    more = [(S.PA_KEYS, S.PA_HOOKS), (["_check_required"], S.CR_HOOKS), (["_check"], S.CK_HOOKS), (S.CP_KEYS, S.CP_HOOKS),
+            (S.M2S_KEYS, S.M2S_HOOKS), (S.AN_KEYS, S.ANN_HOOKS), (O.KEYS, O.HOOKS)]
+    run_property(rep, KEYS, hooks=C.HOOKS, more=more, explanation=(
+        "Deductive part (thin next to what libsbml hides, and stated as such). sbml._create_bound is proved, for every bound value and "
         "every Configuration, to return the id of a parameter whose value equals the reaction's bound (the five shared ids for the "
         "configured defaults, 0 and +-inf; otherwise a per-reaction parameter created with exactly that value), relative to the "
         "assumption that _model_to_sbml created the five shared parameters with those values. Everything else of C10 is behind libsbml "
         "(C++), regex/str.replace chains and a 500-line reader, outside any decidable SMT fragment: bounded driver (exhaustive id "
         "escaper round trips over a reduced alphabet, whole-model round trips through path/handle/string with the libsbml validator as "
-        "oracle for validity, shipped SBML files against an independent XML extraction)."),
+        "oracle for validity, shipped SBML files against an independent XML extraction). "
+        "Pure-Python decision logic of sbml.py with libsbml objects as opaque references (contracts/c10_sbml_logic.py): "
+        "_sbml_to_model.process_association is proved, by structural induction over a well-formed libsbml association tree (every node "
+        "below the root is an FbcOr / FbcAnd / GeneProductRef), to return an ast tree with the same Boolean semantics - sem(result, K) "
+        "= sem_sbml(ass, K) for every set K of absent genes, sem being the function GPR._eval_gpr is proved to compute (C07), gene ids "
+        "translated by f_replace[F_GENE] as an uninterpreted function - and to return None silently for an unknown association kind; "
+        "_check_required (value returned when set, CobraSBMLError and its message otherwise), _check (never raises: which values log), "
+        "_create_parameter against a model of the libsbml calls (one parameter, id / value / constant / SBO term / units as given: the "
+        "assumption _create_bound relied on) and - on the restricted path of a model without compartments, metabolites, genes, "
+        "reactions and groups - that _model_to_sbml creates the five shared parameters with config.lower_bound / config.upper_bound / 0 / "
+        "-inf / +inf under exactly the ids _create_bound hands out; _parse_annotation_info (regular expression assumed) and the "
+        "collection logic of _parse_annotations by two loop invariants: every matched resource is held under its provider (nothing "
+        "dropped, also no substring of an earlier identifier), lists have no duplicates, nothing is invented; and (key "
+        "_parse_annotations@order, with a ghost log of the uris read that is proved to be the flattened list of resources) every "
+        "identifier is stored at the FIRST occurrence of its (provider, identifier) pair and a list is sorted by first occurrence. "
+        "NOT proved, because false (findings): that a provider with one identifier always holds a single string (the same identifier "
+        "met twice gives a list of one), the metaId text of _check_required's message, freshness of the bound parameter ids."),
         trusted=["libsbml", "_create_parameter creates a constant parameter with the given value (assumed contract)",
-                 "string concatenation treated as an uninterpreted injective-agnostic function"])
+                 "string concatenation treated as an uninterpreted injective-agnostic function",
+                 "python ast nodes as immutable values (constructors assumed; the frame argument that later constructions do not change "
+                 "the semantics of earlier trees is not mechanised); finite acyclic libsbml association trees",
+                 "libsbml accessors as ghost functions (assumed contracts, listed below); re / str.isupper / str.lower / `in` on str "
+                 "as uninterpreted functions; LOGGER calls counted, their arguments not evaluated"])
 
 
 def replay(payload):
